@@ -117,6 +117,10 @@ def gen_expr(g, depth, k):
     r = g.random()
     if r < 0.15:
         n = g.randint(2, 3)
+        if depth >= 2 and g.chance(0.4):
+            # lists may hold models too ((a >> b) >> [c >> d, e]): an operand that is a Model then takes part in
+            # several (left, right) pairs of one link
+            return ["list"] + [gen_expr(g, 1, k) if g.chance(0.5) else ["node", g.randint(0, k - 1)] for _ in range(n)]
         return ["list"] + [["node", i] for i in g.sample(range(k), min(n, k))]
     if r < 0.22:
         ns = g.sample(range(k), g.randint(1, min(4, k)))
@@ -469,10 +473,46 @@ def run(ctx):
         while e[0] in ("node", "list"):
             e = gen_expr(g, 4, 8)
         cases.append({"stream": "expression_names", "names": "B", "expr": e})
+    # planted shapes the random grammar reaches too rarely:
+    #  * a Model operand (with edges of its own) facing a list, or inside a list, so that it takes part in several
+    #    (left, right) pairs of ONE link;
+    #  * an in-place merge that brings a further predecessor to a node which already has one (or several) in the
+    #    model being extended: `m = x >> c; m &= y >> c` must insert / rebuild the Concat exactly as `&` does
+    for _ in range(ctx.n(60, 600)):
+        ids = g.sample(range(6), 6)
+        a, b, c_, d, e_, f = (["node", i] for i in ids)
+        chain = lambda *xs: xs[0] if len(xs) == 1 else [">>", chain(*xs[:-1]), xs[-1]]  # noqa: E731
+        shape = g.randint(0, 7)
+        if shape == 0:
+            ex_ = [g.choice([">>", "link"]), chain(a, b), ["list", c_, d]]
+        elif shape == 1:
+            ex_ = [g.choice([">>", "link"]), ["list", a, b], chain(c_, d)]
+        elif shape == 2:
+            ex_ = ["link", ["list", chain(a, b), c_], ["list", chain(d, e_), f]]
+        elif shape == 3:
+            ex_ = [">>", chain(a, b, c_), ["list", d, chain(e_, f)]]
+        elif shape == 4:
+            ex_ = ["&=", chain(a, c_), chain(b, c_)]
+        elif shape == 5:
+            ex_ = ["&=", ["&", chain(a, c_), chain(b, c_)], chain(d, c_)]
+        elif shape == 6:
+            ex_ = ["&=", chain(a, b, c_), ["&", chain(d, b), chain(e_, c_)]]
+        else:
+            ex_ = ["&=", ["&=", chain(a, c_, f), chain(b, c_)], [">>", ["list", d, e_], c_]]
+        cases.append({"stream": "planted_shapes", "expr": ex_})
     corpus_progs = [c for c in cases if "stmts" in c]
     cases = [c for c in cases if "stmts" not in c]
     check_cases(ctx, cases)
     progs = corpus_progs + [{"stream": "program", "stmts": gen_prog(g, 6)} for _ in range(ctx.n(250, 3000))]
+    for _ in range(ctx.n(40, 400)):
+        ids = g.sample(range(6), 6)
+        a, b, c_, d, e_, f = (["node", i] for i in ids)
+        st = [["set", 0, [">>", a, c_]], ["iand", 0, [">>", b, c_]]]
+        if g.chance(0.5):
+            st.append(["iand", 0, [">>", d, g.choice([c_, a, b])]])
+        if g.chance(0.5):
+            st.append(["set", 1, [">>", ["var", 0], ["list", e_, f]]])
+        progs.append({"stream": "program", "stmts": st})
     check_progs(ctx, progs)
 
 
